@@ -496,7 +496,8 @@ def _damage(line, kind, g):
             return None
         out = head + ":" + value[:g.randrange(0, len(value) - 1)]
     elif kind == "bad-value":
-        out = head + ":" + g.choice(F.HOSTILE_DATES + F.HOSTILE_OFFSETS + ["12x", "PXD", "1;", "FREQ=", "TRUE?", "\\"])
+        out = head + ":" + g.choice(F.HOSTILE_DATES + F.HOSTILE_OFFSETS + F.HOSTILE_DURATIONS + F.HOSTILE_NUMBERS
+                                    + F.HOSTILE_RULES[:12] + ["12x", "PXD", "1;", "FREQ=", "TRUE?", "\\"])
     elif kind == "no-colon":
         out = g.choice([name, name + ";X=1", name + ";"])
     elif kind == "bad-param":
